@@ -60,6 +60,13 @@ objs=[inner((f+2.5)**1.5 + g/(f+2.5)**0.5, v)*dx(degree=3), inner(f**0.5*conj(g)
     corpus._c("c09_imaginary_literal_positions", '''
 m=mesh("triangle"); V=space(m,"P",1); v=TestFunction(V); f=Coefficient(V); g=Coefficient(V); k=Constant(m)
 objs=[f/(2j)*dx + conj(f)*g/(-4j)*dx + (g/(0.5j)+f)*dx, inner(f/(2j) + k/(0.25j) - (3j)/(g+2.0), v)*dx, inner(f/(1+2j) + (2j)*f - g*(-1.5j), v)*dx]'''),
+    # conditionals whose branches have different types (real literal / real() / geometry against a complex coefficient),
+    # in both orders, with conditions that are true at some points and false at others
+    corpus._c("c09_conditional_branches_of_mixed_type", '''
+m=mesh("triangle"); V=space(m,"P",1); v=TestFunction(V); f=Coefficient(V); g=Coefficient(V); x=SpatialCoordinate(m)
+objs=[inner(conditional(lt(real(f), 0.25), 2.0, g) + conditional(gt(real(g), 0.125), f, real(g)), v)*dx,
+      inner(conditional(lt(x[0]+x[1], 0.6), x[0], g*f) + conditional(ge(real(f), 0.1), real(g), conj(g)), v)*dx(degree=3),
+      conditional(lt(real(f), 0.25), 1, g)*dx]'''),
     corpus._c("c09_conj_real_imag_abs", '''
 m=mesh("triangle"); V=space(m,"P",1); v=TestFunction(V); f=Coefficient(V); g=Coefficient(V)
 objs=[inner(f*conj(g) + real(f)*g + abs(f) + real(f)*imag(g), v)*dx, (f*conj(g) + imag(f))*dx]'''),
